@@ -68,3 +68,164 @@ def SX(u: int, n: int) -> int:
     if m >= (1 << (n - 1)):
         return m - (1 << n)
     return m
+
+
+# ---------------------------------------------------------------------------------------------------
+# single values: payload encoding ENCP and record framing RECS
+# ---------------------------------------------------------------------------------------------------
+from spec.pyobj import (uninterpreted, is_none, is_bool, is_int, as_int, is_float, is_str, as_str,  # noqa: E402
+                        is_bytes, as_bytes, is_msg, is_dt, dt_us, is_td, td_us, is_list, is_dict, is_enum,
+                        is_placeholder)
+
+
+def IS_VARINT_KIND(t: str) -> bool:
+    return t == "enum" or t == "bool" or t == "int32" or t == "int64" or t == "uint32" or t == "uint64" or t == "sint32" or t == "sint64"
+
+
+def IS_FIXED32(t: str) -> bool:
+    return t == "float" or t == "fixed32" or t == "sfixed32"
+
+
+def IS_FIXED64(t: str) -> bool:
+    return t == "double" or t == "fixed64" or t == "sfixed64"
+
+
+def IS_LEN_KIND(t: str) -> bool:
+    return t == "string" or t == "bytes" or t == "message" or t == "map"
+
+
+def KNOWN_KIND(t: str) -> bool:
+    return IS_VARINT_KIND(t) or IS_FIXED32(t) or IS_FIXED64(t) or IS_LEN_KIND(t)
+
+
+def WT(t: str) -> int:
+    """wire type of a proto type (protobuf encoding spec)"""
+    if IS_VARINT_KIND(t):
+        return 0
+    if IS_FIXED64(t):
+        return 1
+    if IS_FIXED32(t):
+        return 5
+    return 2
+
+
+def FMT(t: str) -> str:
+    """little-endian struct format of the fixed-width kinds (protobuf encoding spec)"""
+    if t == "double":
+        return "<d"
+    if t == "float":
+        return "<f"
+    if t == "fixed32":
+        return "<I"
+    if t == "fixed64":
+        return "<Q"
+    if t == "sfixed32":
+        return "<i"
+    return "<q"
+
+
+@uninterpreted
+def PACKF(fmt: str, v: object) -> bytes:
+    """struct.pack(fmt, v) (A-STRUCT)"""
+    import struct
+    return struct.pack(fmt, v)
+
+
+@uninterpreted
+def UTF8(s: str) -> bytes:
+    """s.encode('utf-8') (A-UTF8)"""
+    return s.encode("utf-8")
+
+
+@uninterpreted
+def MSGWIRE(v: object) -> bytes:
+    """the wire encoding of a nested message value = the same property at smaller nesting depth
+    (induction hypothesis); native reading: bytes(v)"""
+    return bytes(v)
+
+
+@uninterpreted
+def TSWIRE(us: int) -> bytes:
+    """wire encoding of the Timestamp message denoting `us` microseconds since the epoch
+    (contract of _Timestamp.from_datetime + Message.__bytes__, proved in the time area)"""
+    import betterproto
+    import datetime
+    return bytes(betterproto._Timestamp.from_datetime(
+        datetime.datetime(1970, 1, 1, tzinfo=datetime.timezone.utc) + datetime.timedelta(microseconds=us)))
+
+
+@uninterpreted
+def DURWIRE(us: int) -> bytes:
+    import betterproto
+    import datetime
+    return bytes(betterproto._Duration.from_timedelta(datetime.timedelta(microseconds=us)))
+
+
+@uninterpreted
+def WRAPWIRE(w: str, v: object) -> bytes:
+    """wire encoding of the google.protobuf wrapper message of kind w holding v"""
+    import betterproto
+    return bytes(betterproto._get_wrapper(w)(value=v))
+
+
+def TYV(t: str, w: str, v: object) -> bool:
+    """in-range value of a single (non-repeated) item of proto type t  (DESIGN Appendix C.1)"""
+    if t == "bool":
+        return is_bool(v)
+    if t == "int32" or t == "sint32" or t == "enum" or t == "sfixed32":
+        return is_int(v) and -2147483648 <= as_int(v) <= 2147483647
+    if t == "int64" or t == "sint64" or t == "sfixed64":
+        return is_int(v) and -9223372036854775808 <= as_int(v) <= 9223372036854775807
+    if t == "uint32" or t == "fixed32":
+        return is_int(v) and 0 <= as_int(v) <= 4294967295
+    if t == "uint64" or t == "fixed64":
+        return is_int(v) and 0 <= as_int(v) <= 18446744073709551615
+    if t == "float" or t == "double":
+        return is_float(v)
+    if t == "string":
+        return is_str(v)
+    if t == "bytes" or t == "map":
+        return is_bytes(v)
+    if t == "message":
+        if w != "":
+            return is_none(v) or is_bool(v) or is_int(v) or is_float(v) or is_str(v) or is_bytes(v)
+        return is_msg(v) or is_dt(v) or is_td(v)
+    return False
+
+
+def ENCP(t: str, w: str, v: object) -> bytes:
+    """payload bytes of one value of proto type t (protobuf encoding spec)"""
+    if t == "sint32" or t == "sint64":
+        return VARINT(ZZ(as_int(v)))
+    if IS_VARINT_KIND(t):
+        return VARINT(U64(as_int(v)))
+    if IS_FIXED32(t) or IS_FIXED64(t):
+        return PACKF(FMT(t), v)
+    if t == "string":
+        return UTF8(as_str(v))
+    if t == "message":
+        if is_dt(v):
+            return TSWIRE(dt_us(v))
+        if is_td(v):
+            return DURWIRE(td_us(v))
+        if w != "":
+            if is_none(v):
+                return b""
+            return WRAPWIRE(w, v)
+        return MSGWIRE(v)
+    return as_bytes(v)
+
+
+def TAGV(n: int, wt: int) -> bytes:
+    """field key: varint of (field_number << 3) | wire_type"""
+    return VARINT(n * 8 + wt)
+
+
+def RECS(n: int, t: str, p: bytes, se: bool, w: str) -> bytes:
+    """the record of field n with payload p; an empty length-delimited payload is written only when
+    presence demands it (se) or the field is a wrapper"""
+    if WT(t) == 2:
+        if len(p) > 0 or se or w != "":
+            return TAGV(n, 2) + VARINT(len(p)) + p
+        return b""
+    return TAGV(n, WT(t)) + p
